@@ -131,6 +131,15 @@ Theorem C09_routing_sound : forall r mode raw ep, route_seg r mode raw = inr ep 
 Proof. exact route_seg_ok. Qed.
 Print Assumptions C09_routing_sound.
 
+(* UnregisterProtocol(pid, ro) is local: the sibling role of the same protocol and every
+   receiver of every other protocol keep receiving exactly as before (the only other thing
+   that may change is what the ProtocolUnknown catch-all of that same role catches). *)
+Theorem C09_unregister_local : forall r mode pid ro raw,
+  role_of_raw raw <> ro \/ (get_pid raw <> pid /\ pid <> proto_unknown) ->
+  route_seg (unregister r pid ro) mode raw = route_seg r mode raw.
+Proof. exact route_seg_unregister. Qed.
+Print Assumptions C09_unregister_local.
+
 (* ---- non-vacuity ---- *)
 Definition ex_S : sends :=
   [((2, Initiator), [(7, hx "a1"); (8, hx "a2a3")]); ((2, Responder), [(9, hx "b1")]);
